@@ -127,6 +127,7 @@ func (s *fstate) equal(o *fstate) bool {
 }
 
 type factAnalysis struct {
+	expanding int // depth of boolean-variable expansion in progress
 	f       *Fn
 	in      map[*cfg.Block]*fstate
 	noBind  map[*types.Var]bool // vars assigned in literals or address-taken: never bound
@@ -746,6 +747,27 @@ func (a *factAnalysis) addAtomFacts(st *fstate, at atom, cond ast.Expr) {
 			}
 		}
 	case *ast.Ident:
+		// a boolean local that names a condition: `same := a && b; if !same {...}` - the
+		// variable is defined once, by an expression over values that do not change
+		// afterwards, so what is known about the variable is known about the expression
+		if v := f.varOf(x); v != nil && a.expanding < 3 {
+			if defs := f.defsOf(v); len(defs) == 1 && !defs[0].multi && defs[0].rhs != nil {
+				rhs := ast.Unparen(defs[0].rhs)
+				_, isBin := rhs.(*ast.BinaryExpr)
+				_, isNot := rhs.(*ast.UnaryExpr)
+				if (isBin || isNot) && f.enclosing(rhs) == f && stableOperands(f, rhs) {
+					var atoms []atom
+					collectAtoms(rhs, at.truth, &atoms)
+					a.expanding++
+					for _, sub := range atoms {
+						if sub.e != ast.Expr(x) {
+							a.addAtomFacts(st, sub, rhs)
+						}
+					}
+					a.expanding--
+				}
+			}
+		}
 		if v := f.varOf(x); v != nil {
 			if b, ok := st.bind[v]; ok {
 				if at.truth {
@@ -1459,4 +1481,31 @@ func (fs *FactSet) EqConsts(g *Fn, subj func(e ast.Expr) bool) (pos, neg []strin
 	sort.Strings(pos)
 	sort.Strings(neg)
 	return
+}
+
+// stableOperands: every local variable mentioned in e is defined at most once (so it holds
+// the same value wherever e's value is later consulted) and e contains no function literal.
+func stableOperands(f *Fn, e ast.Expr) bool {
+	ok := true
+	ast.Inspect(e, func(n ast.Node) bool {
+		switch x := n.(type) {
+		case *ast.FuncLit:
+			ok = false
+		case *ast.Ident:
+			if v := f.varOf(x); v != nil {
+				isParam := false
+				for g := f; g != nil; g = g.Parent {
+					if g.paramIndex(v) != -2 {
+						isParam = true
+					}
+				}
+				n := len(f.defsOf(v))
+				if isParam && n > 0 || !isParam && n > 1 {
+					ok = false
+				}
+			}
+		}
+		return ok
+	})
+	return ok
 }
